@@ -174,6 +174,14 @@ func qtObserve(q *quadtree.Quadtree, e *qtEv, qs *qtQueries, bufs bool) {
 				id = qtID(fnd)
 			}
 			e.Finds = append(e.Finds, []int{qp[0], qp[1], f[0], f[1], id})
+			if ff != nil { // straight after a filtered search: the unfiltered nearest at the very same point (what one query
+				// found must not colour the next)
+				id2 := 0
+				if again := q.Find(pt); again != nil {
+					id2 = qtID(again)
+				}
+				e.Finds = append(e.Finds, []int{qp[0], qp[1], 1, 0, id2})
+			}
 			for _, k := range qs.ks {
 				for _, md := range qs.mds {
 					var buf []orb.Pointer
